@@ -1042,7 +1042,9 @@ bool DTDScanner::scanCharRef(XMLCh& first, XMLCh& second)
 ContentSpecNode*
 DTDScanner::scanChildren(const DTDElementDecl& elemDecl, XMLBuffer& bufToUse, unsigned int& depth)
 {
-    if (depth++ > CONTENTSPEC_DEPTH_LIMIT) {
+    // depth is the nesting depth of the group being scanned (the recursion
+    // depth of this function), not the number of groups seen so far
+    if (depth > CONTENTSPEC_DEPTH_LIMIT) {
         fScanner->emitError(XMLErrs::UnterminatedDOCTYPE);
         return 0;
     }
@@ -1246,8 +1248,9 @@ DTDScanner::scanChildren(const DTDElementDecl& elemDecl, XMLBuffer& bufToUse, un
 
                         // Recurse to handle this new guy
                         ContentSpecNode* subNode;
+                        unsigned int subDepth = depth + 1;
                         try {
-                            subNode = scanChildren(elemDecl, bufToUse, depth);
+                            subNode = scanChildren(elemDecl, bufToUse, subDepth);
                         }
                         catch (const XMLErrs::Codes)
                         {
